@@ -32,16 +32,19 @@ inductive PErr where
   | read
 deriving Repr, DecidableEq
 
-/-- comment nodes → `Comment`s (`CommentsIterator::comment_from_current_node`) -/
+/-- one node → at most one `Comment` (`CommentsIterator::comment_from_current_node`) -/
+def commentStep (parser : String) (text : Text) (acc : List Comment) (n : Node) : Except PErr (List Comment) :=
+  match Comment.normalise parser n.kind (sliceBytes n.s n.e text) with
+  | .error site => .error (.fault site)
+  | .ok none => .ok acc
+  | .ok (some t) =>
+    let (sl, sc) := posOf text n.s
+    let (el, ec) := posOf text n.e
+    .ok (acc ++ [⟨⟨sl, sc⟩, ⟨el, ec⟩, n.s, n.e, t⟩])
+
+/-- comment nodes → `Comment`s, in document order -/
 def commentsOf (parser : String) (text : Text) (nodes : List Node) : Except PErr (List Comment) :=
-  nodes.foldlM (fun acc n =>
-    match Comment.normalise parser n.kind (sliceBytes n.s n.e text) with
-    | .error site => .error (.fault site)
-    | .ok none => .ok acc
-    | .ok (some t) =>
-      let (sl, sc) := posOf text n.s
-      let (el, ec) := posOf text n.e
-      .ok (acc ++ [⟨⟨sl, sc⟩, ⟨el, ec⟩, n.s, n.e, t⟩])) []
+  nodes.foldlM (commentStep parser text) []
 
 /-- `BlocksParser::parse` for one grammar; Markdown pairs its two comment families separately -/
 def blocksOf (cfg : Cfg) (parser : String) (text : Text) (nodes : List Node) : Except PErr (List Block) :=
